@@ -286,7 +286,7 @@ Variable X A : Type.
 Variable raw : X -> str.
 Variable mkseg : X -> option sref -> result A.
 Variable nm : A -> str.
-Variable admission : str * sref * structure -> list str -> str -> result unit.
+Variable acceptance : str * sref * structure -> list str -> str -> result unit.
 Variable root : sref.
 Variable C : sref -> Prop.
 Hypothesis Htab : groups_by_name t root.
@@ -295,15 +295,15 @@ Hypothesis HC : forall ex n sr, chain t root ex -> declared t (last_ref root ex)
 
 Notation gstate := (gstate A).
 Notation cur_group := (@cur_group A).
-Notation add_child := (add_child A nm admission).
-Notation open_group := (open_group t A nm admission).
-Notation open_groups := (open_groups t A nm admission).
-Notation reopen_group := (reopen_group t A nm admission).
-Notation place := (place X A mkseg nm admission).
-Notation after_found := (after_found t X A raw mkseg nm admission root).
-Notation attempts := (attempts t X A raw mkseg nm admission root).
-Notation step := (step t X A raw mkseg nm admission root).
-Notation run := (run t X A raw mkseg nm admission root).
+Notation add_child := (add_child A nm acceptance).
+Notation open_group := (open_group t A nm acceptance).
+Notation open_groups := (open_groups t A nm acceptance).
+Notation reopen_group := (reopen_group t A nm acceptance).
+Notation place := (place X A mkseg nm acceptance).
+Notation after_found := (after_found t X A raw mkseg nm acceptance root).
+Notation attempts := (attempts t X A raw mkseg nm acceptance root).
+Notation step := (step t X A raw mkseg nm acceptance root).
+Notation run := (run t X A raw mkseg nm acceptance root).
 
 Fixpoint grp_all (x : gtree A) : Prop :=
   match x with
@@ -453,13 +453,13 @@ Lemma run_grp_all xs : forall s s', st_closed A s -> stack_ok t root (g_stack s)
 Proof.
   induction xs as [|x xs IH]; intros s s' Hc Hk Hs Hf H; cbn [Groups.run] in H.
   - now injection H as <-.
-  - inv_bind H. destruct (step_sound t X A raw mkseg nm admission root Htab _ _ _ Hc Hk Hs Ha) as (H1 & H2).
+  - inv_bind H. destruct (step_sound t X A raw mkseg nm acceptance root Htab _ _ _ Hc Hk Hs Ha) as (H1 & H2).
     destruct (step_closed _ _ _ _ _ _ _ _ _ _ _ Hc Ha) as (H3 & _).
     apply (IH a s'); try assumption. exact (step_grp_all _ _ _ Hc Hk Hf Ha).
 Qed.
 
 Theorem find_groups_grp_all xs f :
-  find_groups t X A raw mkseg nm admission root xs = Ok f -> Forall grp_all f.
+  find_groups t X A raw mkseg nm acceptance root xs = Ok f -> Forall grp_all f.
 Proof.
   unfold find_groups. intros H. inv_bind H. injection H as <-.
   apply (run_grp_all xs (init_state A root) a); try assumption.
@@ -631,23 +631,23 @@ Proof.
   intros Hroot Hdist Hgok Hclean H. unfold parse_segments_grouped in H. apply bind_ok in H. destruct H as (f & Hf & H).
   injection H as <-. unfold parse_segments_grouped_trees in Hf.
   pose proof (NoCrashGroupedCore.Htab t root (NoCrashGroupedCore.gref t) Hroot (gref_grp t)) as Htab.
-  pose proof (find_groups_sound t str seg (take 3) (seg_of_piece t lvl e leaf) s_name (group_admission t lvl) root
+  pose proof (find_groups_sound t str seg (take 3) (seg_of_piece t lvl e leaf) s_name (group_acceptance t lvl) root
                 Htab _ _ Hf) as Hsound.
   assert (Hsafe : pc (fun f => Forall (seg_all seg (fun a _ => sgood t a)) f /\ Forall (ne_tree seg) f)
-                     (find_groups t str seg (take 3) (seg_of_piece t lvl e leaf) s_name (group_admission t lvl) root
+                     (find_groups t str seg (take 3) (seg_of_piece t lvl e leaf) s_name (group_acceptance t lvl) root
                                   (pieces text))).
-  { apply (find_groups_safe anyx t str seg (take 3) (seg_of_piece t lvl e leaf) s_name (group_admission t lvl)
+  { apply (find_groups_safe anyx t str seg (take 3) (seg_of_piece t lvl e leaf) s_name (group_acceptance t lvl)
              root (fun a _ => sgood t a) (NoCrashGroupedCore.gref t)).
     - exact Hroot.
     - intros r g gr. apply gref_grp.
     - apply NoCrashGroupedCore.gref_parse.
     - intros name r. apply gref_search.
     - exact Hdist.
-    - intros p have c. destruct (group_admission t lvl p have c); exact I.
+    - intros p have c. destruct (group_acceptance t lvl p have c); exact I.
     - intros r x sr. apply seg_of_piece_sgood_ref.
     - apply seg_of_piece_sgood. }
   destruct (sp_inv anyx _ _ f Hsafe Hf) as [Hq _].
-  pose proof (find_groups_grp_all t str seg (take 3) (seg_of_piece t lvl e leaf) s_name (group_admission t lvl) root
+  pose proof (find_groups_grp_all t str seg (take 3) (seg_of_piece t lvl e leaf) s_name (group_acceptance t lvl) root
                 (mref t) Htab (fun ex n sr => clean_found t Hgok ex root n sr Hclean) _ _ Hf) as Hg.
   rewrite Forall_forall in *. intros y Hy. apply in_map_iff in Hy. destruct Hy as (z & <- & Hz).
   exact (gtree_nok z root (Hsound z Hz) (Hq z Hz) (Hg z Hz)).
